@@ -370,7 +370,9 @@ Inductive ev :=
 | EBreak (st : Z)                   (* the heartbeat stream of a store breaks: pushes into it fail from now on *)
 | ERebind (st : Z)                  (* the store binds a new stream; the observation lists what the new stream receives at once *)
 | ERecordStore (n : Z)
-| EEntryRace (n : Z).               (* an exported method of the controller that the model does not know (found by reflection; none in
+| EEntryRace (n : Z)
+| EStaleReport (rid : Z).           (* a delayed report of an OLDER state of the region (lower epoch than PD already knows) arrives:
+                                       RaftCluster refuses it; it must not reach the operator controller *)               (* an exported method of the controller that the model does not know (found by reflection; none in
                                        the unchanged tree) is called again and again while n operators are being added: the result is
                                        the number of operators that are neither running nor ended-and-recorded afterwards *)             (* the TTL store behind opRecords (pkg/cache): n keys whose old entry has expired but is not
                                        collected yet are written again while the collector runs; the result is the number of
@@ -549,6 +551,7 @@ Definition ctl_step (c : ctl) (e : ev) : ctl * obs :=
   | ERebind st => let c' := set_unbound c (filter (fun x => negb (x =? st)) (unbound c)) in (c', snapshot c' (-1) [] None DNone)
   | ERecordStore _ => (c, snapshot c 0 [] None DNone)     (* a record that has just been written stays until it expires *)
   | EEntryRace _ => (c, snapshot c 0 [] None DNone)       (* whatever the entry point does: nobody is lost *)
+  | EStaleReport _ => (c, snapshot c (-1) [] None DNone)  (* refused: neither the cache nor any operator sees it *)
   end.
 
 Definition init (maxw : Z) : ctl := Ctl [] [] [] [] [] [] [] [] maxw [].
@@ -736,6 +739,11 @@ Definition monitor_step (m : mon) (e : ev) (o : obs) : mon * option string :=
     match e with
     | ERecordStore _ => if b_res o =? 0 then None else Some "C09:record-store-loses-fresh-entry"
     | EEntryRace _ => if b_res o =? 0 then None else Some "C09:unknown-entry-point-loses-operators"
+    | EStaleReport _ =>
+        if negb (Nat.eqb (length (b_sent o)) 0) then Some "C09:stale-report-reaches-operator:command-sent"
+        else if negb (list_eqb (fun a b => (fst a =? fst b) && (snd a =? snd b)) (b_running o) (prev_running m))
+        then Some "C09:stale-report-reaches-operator:running-set-changed"
+        else None
     | _ => None
     end in
   let v_stale :=
